@@ -61,8 +61,10 @@ CLAIMS = {
               "atom, for atoms free of LIKE metacharacters: quoted text is smart-case literal containment on both code "
               "paths (LIKE '%lit%' = case-insensitive containment, by induction on the pattern), f= is a *-glob, a negated "
               "comparison keeps the existence requirement (flipped operator = negation, total string order), existence "
-              "filters are exact complements, ranges are inclusive; the unclean atoms are REFUTED by witnesses (7 known "
-              "findings). Tied to the code by comparing repo.get_notes_by_query with the model on indexes built by the real "
+              "filters are exact complements, ranges are inclusive; lifted to WHOLE filters of any nesting "
+              "(C03_whole_filter_is_its_reading, by induction over the filter tree: AND / OR / parentheses compose exactly "
+              "as written) and to the result set (C03_where_returns_exactly_the_satisfying_notes); the unclean atoms are "
+              "REFUTED by witnesses (7 known findings). Tied to the code by comparing repo.get_notes_by_query with the model on indexes built by the real "
               "`db create` (read back from the raw SQLite rows) over generated filters, plus a three-valued spec check."),
         note=("SQLite/SQLAlchemy are modelled, not verified; date() on exotic values is OutOfModel (counted). The filter "
               "structure comes from the real query compiler (C04)."),
